@@ -23,6 +23,34 @@ struct CmPeek : public contact_model_abstract {
     static double rep(const contact_model_abstract& m) { return m.*(&CmPeek::interaction_cutoff_repulsion_); }
 };
 
+// Behaviour behind the two contact cut-offs: a node of one cell that has penetrated another cell by `depth` along the normal of an axis-aligned
+// face is pushed back if and only if depth < <contact_cutoff_repulsion>, whatever <contact_cutoff_adhesion> is.  The contact model of the
+// build is constructed from the parameters the reader returned; both cells are lumen cells (no coupling rules), repulsion strength 1.
+#if CONTACT_MODEL_INDEX == 0
+#include "contact_node_face_via_spring.hpp"
+typedef contact_node_face_via_spring probe_model_t;
+#elif CONTACT_MODEL_INDEX == 1
+#include "contact_node_node_via_coupling.hpp"
+typedef contact_node_node_via_coupling probe_model_t;
+#else
+#include "contact_face_face_via_coupling.hpp"
+typedef contact_face_face_via_coupling probe_model_t;
+#endif
+static double contact_probe_force(const global_simulation_parameters& sp, const cell_type_parameters& src, double depth) {
+    const double cm = std::max(sp.contact_cutoff_adhesion_, sp.contact_cutoff_repulsion_), S = 40 * cm;
+    auto ct = std::make_shared<cell_type_parameters>(src); ct->global_type_id_ = 2; ct->surface_coupling_max_curvature_ = 1e300; for (auto& f : ct->face_types_) { f.repulsion_strength_ = 1; f.adherence_strength_ = 0; }
+    gen::TriMesh box = gen::box(1, S / 2, S / 2, S / 2);                       // cube [-S/2, S/2]^3, top face z = S/2
+    gen::TriMesh small = gen::icosphere(0); const double r = 2 * cm; gen::scale(small, r, r, r);
+    // the small body comes from above: its lowest node (outward normal pointing down, against the normal of the face) sits `depth` below the top face,
+    // well away from the diagonal of that face; the rest of the body is higher
+    gen::rotate(small, gen::rot_identity()); size_t top = 0; for (size_t k = 0; k < small.P.size(); k++) if (small.P[k][2] < small.P[top][2]) top = k;
+    gen::translate(small, 0.21 * S - small.P[top][0], -0.13 * S - small.P[top][1], S / 2 - depth - small.P[top][2]);
+    std::vector<cell_ptr> L = {std::static_pointer_cast<cell>(gen::make_cell<lumen_cell>(box, 0, ct)), std::static_pointer_cast<cell>(gen::make_cell<lumen_cell>(small, 1, ct))};
+    for (size_t k = 0; k < L.size(); k++) { L[k]->set_local_id((unsigned)k); L[k]->apply_internal_forces(0.0); for (node& n : cell_tester::nodes(*L[k])) if (n.is_used()) n.set_force(vec3(0, 0, 0)); }
+    probe_model_t model(sp); model.run(L);
+    const vec3& f = cell_tester::nodes(*L[1])[top].force(); return std::sqrt(f.dx() * f.dx() + f.dy() * f.dy() + f.dz() * f.dz());
+}
+
 struct BMesh { gen::TriMesh m; double emin = 0, emax = 0, r = 0; };
 static BMesh make_bmesh(Rng& g, bool jitter) {
     BMesh b; b.m = gen::icosphere(g.range(1, 2)); b.r = g.logu(1e-6, 10.0); gen::scale(b.m, b.r, b.r, b.r);
@@ -412,7 +440,13 @@ static void meaning_case(const Args& a, long i, Agg& agg) {
         if (run_pair(m, oa, ob)) {
             int w = 0; for (Obs* o : {&oa, &ob}) { const Doc& D = (w++ == 0) ? A : B;
                 if (!same_bits(o->cm_adh, fld(D.num, "contact_cutoff_adhesion").dval)) m.fail("contact_model_cutoff", "adhesion cut-off used by the contact model " + Cmp::dstr(o->cm_adh) + " is not the value of <contact_cutoff_adhesion> " + fld(D.num, "contact_cutoff_adhesion").text);
-                if (!same_bits(o->cm_rep, fld(D.num, "contact_cutoff_repulsion").dval)) m.fail("contact_model_cutoff", "repulsion cut-off used by the contact model " + Cmp::dstr(o->cm_rep) + " is not the value of <contact_cutoff_repulsion> " + fld(D.num, "contact_cutoff_repulsion").text); }
+                if (!same_bits(o->cm_rep, fld(D.num, "contact_cutoff_repulsion").dval)) m.fail("contact_model_cutoff", "repulsion cut-off used by the contact model " + Cmp::dstr(o->cm_rep) + " is not the value of <contact_cutoff_repulsion> " + fld(D.num, "contact_cutoff_repulsion").text);
+                // behaviour: pushed back at 0.5 and 0.9 repulsion cut-offs (also when that is beyond the adhesion cut-off), left alone at 1.2 x the larger cut-off
+                if (o->ok && su.kct < o->rd.ct.size()) { const double adh = fld(D.num, "contact_cutoff_adhesion").dval, rep = fld(D.num, "contact_cutoff_repulsion").dval;
+                    try { for (double fr : {0.5, 0.9, 1.2}) { const double fm = contact_probe_force(o->rd.sp, *o->rd.ct[su.kct], fr < 1 ? fr * rep : fr * std::max(adh, rep));   // (the models apply the repulsion rule up to the larger of the two cut-offs) agg.bin("contact_cutoff_probes"); if (fr < 1 && fr * rep > adh) agg.bin("contact_cutoff_probes_between_the_two_cutoffs");
+                            if (fr < 1 && !(fm > 0)) m.fail("repulsion_range", "a node " + Cmp::dstr(fr) + " repulsion cut-offs inside another cell receives no contact force (adhesion cut-off " + Cmp::dstr(adh) + ", repulsion cut-off " + Cmp::dstr(rep) + ")");
+                            if (fr > 1 && fm != 0) m.fail("repulsion_range", "a node 1.2 x the larger cut-off inside another cell still receives a contact force"); } }
+                    catch (const std::exception& e) { m.fail("repulsion_range", std::string("contact probe threw: ") + e.what()); } } }
         }
         finish_case(true); return;
     }
